@@ -260,6 +260,10 @@ let () =
       let rec nodup = function [] -> true | x :: r -> not (Stdlib.List.mem x r) && nodup r in
       spec "c11_menu_no_duplicates" (nodup (split ',' o.(0))) o.(0);
       spec "c11_every_entry_accepted" (Stdlib.List.for_all (fun b -> b = "1") oks) o.(2);
+      (* the abstraction's raise cap: once more than MAX_RAISE_REPEATS raises were made in the round the menu offers no raise *)
+      if int_of_z n > int_of_z GenLib.coq_MAX_RAISE_REPEATS then
+        spec "c11_menu_respects_the_raise_cap" (not (Stdlib.List.exists (function ERaise _ -> true | _ -> false) es))
+          (Printf.sprintf "raise count %d, menu %s" (int_of_z n) o.(0));
       (match ms with
        | None -> ()
        | Some s ->
